@@ -30,6 +30,7 @@ import YtkProofs.ResolverNested
 import YtkProofs.ResolverRelex
 import YtkProofs.ResolverNestedConv
 import YtkProofs.ResolverStable
+import YtkProofs.FuncsLemmas
 
 namespace Ytk.C11
 open Ytk.Resolver
@@ -1160,5 +1161,148 @@ theorem nonvacuous_evalT_cycle :
     The harness compares with an independently written Go recursive-descent reference on the full
     grammar.
 -/
+
+end Ytk.C11
+
+/-! ## Translated functions (YtkModel/Generated/Funcs.lean, regenerated from the Go source on every
+    run by extract/translate.go): the translation of the byte-level helpers of props/resolver.go
+    EQUALS their list-level meaning, for all inputs of the stated domain, without panic and without
+    running out of loop fuel.  (The token-level model `Resolver.resolve` uses `List.erase` for
+    removeFromSlice and `isPrefixOfChars` for matchAt; indexAfter / replaceAt have no separate
+    model function — their meaning is stated over `List.take/drop` and `strings.Index`.)
+    An edit of the Go function changes the regenerated definition and these stop checking. -/
+namespace Ytk.C11
+open Ytk.Generated Ytk.Resolver
+
+/-- props.removeFromSlice, as translated: the first occurrence is removed (`List.erase`, what the
+    model's `resolve` does with `seen`); all inputs -/
+theorem removeFromSlice_generated_eq_model (slice : List String) (x : String) :
+    Funcs.removeFromSlice slice x = .ok (slice.erase x) := by
+  unfold Funcs.removeFromSlice
+  by_cases hm : x ∈ slice
+  · obtain ⟨pre, suf, rfl, hn⟩ := List.eq_append_cons_of_mem hm
+    have he : (pre ++ x :: suf).erase x = pre ++ suf := by
+      rw [List.erase_append_right _ hn, List.erase_cons_head]
+    have hne : ((pre.length : Int) != -1) = true := by simp
+    simp only [Go.slicesIndex_append_cons pre x suf hn, hne, if_true, Go.sliceL_prefix, Go.sliceL_suffix,
+      Go.Res.ok_bind, he, List.nil_append, Go.Res.pure_eq]
+  · simp [Go.slicesIndex_of_notMem slice x hm, List.erase_of_not_mem hm]
+
+theorem isPrefixOfChars_false_of_length : ∀ (as bs : List Char), bs.length < as.length →
+    isPrefixOfChars as bs = false
+  | [], _, h => by simp at h
+  | _ :: _, [], _ => rfl
+  | a :: as, b :: bs, h => by
+    simp [isPrefixOfChars, isPrefixOfChars_false_of_length as bs (by simpa using h)]
+
+theorem matchAt_loop1_eq (str sub : String) (index : Nat) (hlen : index + sub.toList.length ≤ str.toList.length) :
+    ∀ (ssuf spre : List Char) (fuel : Nat), sub.toList = spre ++ ssuf → ssuf.length + 1 ≤ fuel →
+    Funcs.matchAt_loop1 str (index : Int) sub fuel (spre.length : Int)
+      = .ok (if isPrefixOfChars ssuf (str.toList.drop (index + spre.length)) then .next (sub.toList.length : Int) else .ret false) := by
+  intro ssuf
+  induction ssuf with
+  | nil =>
+    intro spre fuel hs hf
+    cases fuel with
+    | zero => omega
+    | succ f =>
+      simp at hs
+      simp [Funcs.matchAt_loop1, Go.len_eq, hs, isPrefixOfChars]
+  | cons c r ih =>
+    intro spre fuel hs hf
+    cases fuel with
+    | zero => omega
+    | succ f =>
+      have hl : sub.toList.length = spre.length + (r.length + 1) := by simp [hs]
+      have hlt : (spre.length : Int) < Go.len sub := by
+        simp only [Go.len_eq, hl]; omega
+      have hn : index + spre.length < str.toList.length := by omega
+      have hb1 : Go.byteAt str ((index : Int) + (spre.length : Int)) = .ok str.toList[index + spre.length] := by
+        have := Go.index_nat str.toList (index + spre.length) hn
+        simpa [Go.byteAt] using this
+      have hb2 : Go.byteAt sub (spre.length : Int) = .ok c := by
+        simp only [Go.byteAt, hs]; exact Go.index_append_length spre c r
+      have hd : str.toList.drop (index + spre.length) = str.toList[index + spre.length] :: str.toList.drop (index + spre.length + 1) :=
+        List.drop_eq_getElem_cons hn
+      have ih' := ih (spre ++ [c]) f (by simp [hs]) (by simp at hf; omega)
+      simp only [List.length_append, List.length_singleton, Int.natCast_add, Int.natCast_one] at ih'
+      simp only [Funcs.matchAt_loop1, hlt, decide_true, if_true, hb1, hb2, Go.Res.ok_bind, hd, isPrefixOfChars]
+      by_cases hc : str.toList[index + spre.length] = c
+      · simp [hc, ih', Nat.add_assoc]
+      · have hc' : ¬ c = str.toList[index + spre.length] := fun e => hc e.symm
+        simp [hc, hc']
+
+/-- props.matchAt, as translated (index loop with fuel len(substring)+1): for 0 ≤ index ≤ len(str)
+    it never panics and says whether `substring` is a prefix of `str[index:]` — the model's
+    `isPrefixOfChars` (what `lex` scans with).  Outside that domain: a negative index panics
+    (`matchAt_negative_index_panics`), and for index > len(str) the empty substring is NOT matched. -/
+theorem matchAt_generated_eq_model (str sub : String) (index : Nat) (hidx : index ≤ str.toList.length) :
+    Funcs.matchAt str (index : Int) sub = .ok (isPrefixOfChars sub.toList (str.toList.drop index)) := by
+  unfold Funcs.matchAt
+  by_cases h : index + sub.toList.length ≤ str.toList.length
+  · have h1 : ¬ ((index : Int) + Go.len sub > Go.len str) := by
+      simp only [Go.len_eq]; omega
+    have hf : (Go.len sub + 1).toNat = sub.toList.length + 1 := by
+      simp only [Go.len_eq]; omega
+    have := matchAt_loop1_eq str sub index h sub.toList [] (sub.toList.length + 1) (by simp) (Nat.le_refl _)
+    simp only [List.length_nil, Int.natCast_zero, Nat.add_zero] at this
+    simp only [h1, decide_false, Bool.false_eq_true, if_false, hf, this, Go.Res.ok_bind]
+    cases isPrefixOfChars sub.toList (List.drop index str.toList) <;> simp
+  · have h1 : ((index : Int) + Go.len sub > Go.len str) := by
+      simp only [Go.len_eq]; omega
+    have : isPrefixOfChars sub.toList (str.toList.drop index) = false :=
+      isPrefixOfChars_false_of_length _ _ (by simp; omega)
+    simp [h1, this]
+
+theorem nonvacuous_matchAt : Funcs.matchAt "a${b}" (1 : Nat) "${" = .ok true ∧ Funcs.matchAt "a${b}" (2 : Nat) "${" = .ok false := by
+  decide
+
+/-- outside the domain of `matchAt_generated_eq_model`: the Go code indexes `str[index+i]` -/
+theorem matchAt_negative_index_panics : Funcs.matchAt "ab" (-1) "a" = .panic := by decide
+
+/-- props.indexAfter, as translated: for offset ≥ 0 it never panics; −1 if offset > len(str), else
+    strings.Index of `str[offset:]` counted from `offset` (absolute position of the first occurrence
+    at or behind `offset`, −1 if none) -/
+theorem indexAfter_generated_eq_model (str sub : String) (offset : Nat) :
+    Funcs.indexAfter str sub (offset : Int)
+      = .ok (if str.toList.length < offset then -1
+             else Go.stringsIndexC sub.toList (str.toList.drop offset) offset) := by
+  unfold Funcs.indexAfter
+  by_cases h : str.toList.length < offset
+  · have : (offset : Int) > Go.len str := by simp only [Go.len_eq]; omega
+    simp [h, this]
+  · have h1 : ¬ (offset : Int) > Go.len str := by simp only [Go.len_eq]; omega
+    have hs := Go.slice_nat str offset str.toList.length (by omega) (Nat.le_refl _)
+    rw [← Go.len_eq] at hs
+    have ht : (str.toList.drop offset).take (str.toList.length - offset) = str.toList.drop offset := by
+      apply List.take_of_length_le; simp
+    simp only [h1, decide_false, Bool.false_eq_true, if_false, h, hs, ht, Go.Res.ok_bind, Go.stringsIndex,
+      String.toList_ofList]
+    rw [Go.stringsIndexC_shift sub.toList _ offset]
+    split <;> simp_all
+
+/-- props.replaceAt, as translated: for 0 ≤ start ≤ len(in), end ≥ 0 it never panics and is
+    `in[:start] ++ replacement ++ in[end:]` (empty tail when end ≥ len(in)) -/
+theorem replaceAt_generated_eq_model (s repl : String) (start stop : Nat) (h : start ≤ s.toList.length) :
+    Funcs.replaceAt s (start : Int) (stop : Int) repl
+      = .ok (String.ofList (s.toList.take start ++ repl.toList ++ s.toList.drop stop)) := by
+  unfold Funcs.replaceAt
+  have hs := Go.slice_nat s 0 start (by omega) h
+  simp only [Int.natCast_zero, List.drop_zero, Nat.sub_zero] at hs
+  simp only [hs, Go.Res.ok_bind]
+  by_cases he : stop < s.toList.length
+  · have h1 : (stop : Int) < Go.len s := by simp only [Go.len_eq]; omega
+    have hs2 := Go.slice_nat s stop s.toList.length (by omega) (Nat.le_refl _)
+    rw [← Go.len_eq] at hs2
+    have ht : (s.toList.drop stop).take (s.toList.length - stop) = s.toList.drop stop := by
+      apply List.take_of_length_le; simp
+    simp only [h1, decide_true, if_true, hs2, ht, Go.Res.ok_bind, Go.Res.pure_eq]
+    congr 1; apply String.toList_inj.mp; simp [String.toList_append]
+  · have h1 : ¬ (stop : Int) < Go.len s := by simp only [Go.len_eq]; omega
+    have hd : s.toList.drop stop = [] := List.drop_eq_nil_of_le (by omega)
+    simp only [h1, decide_false, Bool.false_eq_true, if_false, hd, Go.Res.pure_eq, List.append_nil]
+    congr 1; apply String.toList_inj.mp; simp [String.toList_append]
+
+theorem indexAfter_negative_offset_panics : Funcs.indexAfter "ab" "a" (-1) = .panic := by decide
 
 end Ytk.C11
